@@ -18,7 +18,7 @@ ASSUMPTIONS = [
     "str::parse::<f64> is outside the model: a Float carries the text of office:value, both drivers convert it with a correctly rounded parser",
     "cell content is restricted to <text:p>text</text:p>* (the full content grammar is property C19)",
     "no white space between the elements of a table:table-row (F29: read_row rejects it; outside the stated quantifier)",
-    "repeat counts are positive (ODF positiveInteger); row/column indices fit u32 and the sheet's cell count fits usize (extent_ok): outside that guard only model = implementation is checked",
+    "repeat counts are positive (ODF positiveInteger); at most 2^32 rows announced (what read_table accepts; more is an error on both sides), column indices fit u32 and the sheet's cell count fits usize (extent_ok): outside that guard only model = implementation is checked",
     "allocation failure on absurdly large interior repeats is not modelled; the generator keeps materialised areas small",
 ]
 
@@ -147,6 +147,8 @@ def gen_sheet(rng):
             rows.insert(0, [BLANK] * rng.choice([0, 1, 3]) + [fo])
     if all(all(c == BLANK for c in r) for r in rows) and rng.random() < 0.8:
         rows[rng.randrange(len(rows))] = [BLANK] * coff + [rand_cell(rng, palette)]
+    if lead + len(rows) > U32 and rng.random() < 0.85:
+        lead = U32 - len(rows)          # the data ends exactly at row u32::MAX (2^32 rows: accepted)
     return lead, rows
 
 def grid_of(lead, rows):
@@ -253,10 +255,12 @@ def encode_sheet(lead, rows, rng):
         trail = 0
     elif t < 0.5:
         trail = rng.randint(1, 9)
-    elif t < 0.9:
+    elif t < 0.88:
         trail = max(1, 1048576 - total)
+    elif t < 0.97:
+        trail = max(0, U32 - total)      # exactly 2^32 rows announced: the most read_table accepts
     else:
-        trail = 2 ** 40
+        trail = 2 ** 40                  # beyond the row limit: rejected with an error (model: Err)
     if trail:
         for k in (compose(trail, rng, 3) if rng.random() < 0.3 else [trail]):
             out.append((k, encode_row([], rng, style)))
@@ -474,6 +478,12 @@ CORPUS = [
     ("empty_sheet", [(1048576, [(16384, BLANK, False)])]),
     ("no_rows", []),
     ("lead_u32", [(U32 - 1, []), (1, [(1, F1, False)])]),
+    ("rows_2p32_trailing", [(2, [(1, BLANK, False), (1, F1, False)]), (U32 - 2, [(16384, BLANK, False)])]),
+    ("rows_over_limit", [(2, [(1, F1, False)]), (U32 - 1, [])]),
+    ("blank_then_repeated", [(1, [(1, F1, False), (2, BLANK, False), (2, F2, False), (1, F3, False)]),
+                             (1, [(3, BLANK, True), (4, F1, False)]), (1, [(1, BLANK, False), (3, F3, False)])]),
+    ("last_row_repeated", [(1, [(1, F1, False), (1, F2, False)]), (1, []), (2, [(1, F3, False), (1, F4, False)])]),
+    ("single_repeated_row", [(5, [(2, BLANK, False), (1, F1, False)])]),
     ("beyond_u32", [(U32 + 3, []), (2, [(2, BLANK, False), (1, F1, False)])]),
     # formula cells without cached value: last in the row, first in the row, interior, alone
     ("fo_edges", [(1, [(1, F1, False), (1, BLANK, False), (1, FO, False)]), (1, [(1, FO, False), (2, F2, False)]),
